@@ -85,6 +85,22 @@ pub fn machinery(msg: &str) -> ! {
 impl Ctx {
     pub fn new(id: &str, tier: Tier, replay: Option<PathBuf>) -> Ctx {
         let seed = std::env::var("VERIF_SEED").ok().and_then(|s| s.parse().ok()).unwrap_or(0);
+        // RSS cap: an enumeration that outgrows memory is a machinery failure, never a verdict
+        static WATCHDOG: Once = Once::new();
+        WATCHDOG.call_once(|| {
+            let cap_gb: f64 = std::env::var("VERIF_RSS_CAP_GB").ok().and_then(|s| s.parse().ok()).unwrap_or(20.0);
+            std::thread::spawn(move || loop {
+                std::thread::sleep(std::time::Duration::from_millis(500));
+                if let Ok(statm) = std::fs::read_to_string("/proc/self/statm") {
+                    let pages: f64 = statm.split_whitespace().nth(1).and_then(|x| x.parse().ok()).unwrap_or(0.0);
+                    let gb = pages * 4096.0 / 1e9;
+                    if gb > cap_gb {
+                        eprintln!("MACHINERY-ERROR: resident set {gb:.1} GB exceeds the cap of {cap_gb} GB");
+                        std::process::exit(2);
+                    }
+                }
+            });
+        });
         Ctx { id: id.to_string(), tier, seed, start: Instant::now(), replay, state: Mutex::new(Default::default()) }
     }
 
